@@ -1081,6 +1081,27 @@ func (g *gen) withDataHistory(kind int) {
 	s.done()
 }
 
+// a save section as vanilla writes it when it holds more than 256 distinct block states: a palette and
+// indices of ceil(log2(len(palette))) = 9..15 bits.  The library has no indirect palette wider than 8
+// bits and takes such data for direct ids (KNOWN FINDING C12-withdata-wide-indirect).
+func (g *gen) withDataWide() {
+	n := 4096
+	s := newScript(g.o, "withdata-wide.states", kStates, n)
+	k := g.r.Pick(257, 300, 513, 1100)
+	arr, pal := g.randArray(kStates, n, k)
+	w := ceilLog2(len(pal))
+	ks := make([]int, n)
+	for i, v := range arr {
+		ks[i] = indexOf(pal, v)
+	}
+	data := refPack(w, ks)
+	s.initData(0, data, pal, arr, 0, "C12.withdata.states.wide-indirect")
+	s.initNone(1)
+	s.sweep(0)
+	g.o.Case("savespec", true, fmt.Sprintf("sv s %d %d %s %s", w, n, rawStr(data), intsStr(pal)), "sv "+hashInts(arr))
+	s.done()
+}
+
 // malformed or unusual save data: only the model comparison applies
 func (g *gen) withDataOdd(kind int) {
 	n := 4096
@@ -1240,6 +1261,9 @@ func main() {
 	}
 	for i := 0; i < o.N(150, 10); i++ {
 		g.withDataHistory(kBiomes)
+	}
+	for i := 0; i < o.N(2, 5); i++ {
+		g.withDataWide()
 	}
 	for i := 0; i < o.N(30, 10); i++ {
 		g.feedHistory(kStates)
